@@ -6,23 +6,28 @@
 //	schedulerplugin/ipam.go         getAvailableSubnet, reserveIP
 //	schedulerplugin/filter.go       getSubnet, allocateDuringFilter
 //	schedulerplugin/resync.go       fetchChecklist, resyncAllocatedIPs (closure)
-//	schedulerplugin/bind.go         unbind
+//	schedulerplugin/bind.go         unbind, allocateIP
 //	schedulerplugin/floatingip_plugin.go  parseReleasePolicy, supportReserveIPPolicy
-//	floatingip/ipam_crd.go          ReserveIP;  floatingip/floatingip.go  Assign, CloneWith
+//	floatingip/ipam_crd.go          ReserveIP, AllocateInSubnetWithKey;  floatingip/floatingip.go  Assign, CloneWith
 //	api/galaxy/constant/constant.go policy enum, ConvertReleasePolicy, annotation strings
 //
-// Three kinds of output (DESIGN.md section 3.1):
-//  (a) comparison expressions with their operator and operand order as Lean `def`s over Int
-//      (`replicas < int32(index)+1`, `len(fips) > replicas`, `replicas == 0`, `usedCount >= replicas`) and the
-//      reachability condition of `usedCount++` / of the unused-subnet insert inside the loop of getAvailableSubnet
-//      as a Boolean function of named atoms;
-//  (b) constants and case tables (policy enum, annotation strings, branch tables of unbindDpPod / unbindNoneDpPod /
-//      supportReserveIPPolicy as ordered (condition, action) lists);
-//  (c) structural facts (lock scopes, policy copy in ReserveIP, re-read record in resync, no fall-through).
+// Every function is first brought into a CANONICAL FORM (norm.go, harmless/NORMALISE.md: logs and message texts dropped,
+// unknown private helpers inlined one level, switch = if-chain, else after a leaving branch dropped, index-range =
+// value-range, alpha-renaming by position / callee / ranged expression, pure single-assignment locals inlined,
+// negated comparisons simplified), then matched.  Three kinds of output (DESIGN.md section 3.1):
 //
-// Purely syntactic (go/ast on single functions).  A missing function makes the translator fail; a function whose
-// shape is not the expected one yields `false` / a different table, so that the `fact_*` theorems stop building
-// while the harness can still look for a failing input.
+//	(a) comparison expressions with their operator and operand order, kept strictly, as Lean `def`s over Int
+//	    (`replicas < int32(index)+1`, `len(fips) > replicas`, `replicas == 0`, `usedCount >= replicas`) and the
+//	    reachability condition of `usedCount++` / of the unused-subnet insert inside the loop of getAvailableSubnet
+//	    as a Boolean function of named atoms (guard clauses and nesting are the same thing here);
+//	(b) constants and decision lists (policy enum, annotation strings; unbindDpPod / unbindNoneDpPod /
+//	    supportReserveIPPolicy / shouldRelease as ordered (condition, action) lists that also carry the position of
+//	    the pool lock and of the count);
+//	(c) structural facts (lock scopes, policy copy in ReserveIP, re-read record in resync, no fall-through).
+//
+// A missing function makes the translator fail; a function whose canonical form is not the expected one yields
+// `false` / a different list, so that the `fact_*` theorems stop building while the harness can still look for a
+// failing input.
 package main
 
 import (
@@ -43,10 +48,10 @@ func norm(s string) string { return strings.Join(strings.Fields(s), " ") }
 // ---- (a) expression translation ------------------------------------------------------------------------------
 
 // intExpr translates an integer Go expression over the named variables to a Lean Int term.
-func intExpr(p *fg.Parsed, e ast.Expr, vars map[string]string) (string, error) {
+func intExpr(f *NF, e ast.Expr, vars map[string]string) (string, error) {
 	switch x := e.(type) {
 	case *ast.ParenExpr:
-		return intExpr(p, x.X, vars)
+		return intExpr(f, x.X, vars)
 	case *ast.BasicLit:
 		if x.Kind == token.INT {
 			return x.Value, nil
@@ -56,12 +61,12 @@ func intExpr(p *fg.Parsed, e ast.Expr, vars map[string]string) (string, error) {
 			return v, nil
 		}
 	case *ast.CallExpr:
-		fn := p.Src(x.Fun)
+		fn := f.Src(x.Fun)
 		if (fn == "int32" || fn == "int" || fn == "int64") && len(x.Args) == 1 {
-			return intExpr(p, x.Args[0], vars) // widening conversions of small non-negative numbers
+			return intExpr(f, x.Args[0], vars) // widening conversions of small non-negative numbers
 		}
 		if fn == "len" && len(x.Args) == 1 {
-			if v, ok := vars["len("+p.Src(x.Args[0])+")"]; ok {
+			if v, ok := vars["len("+f.Src(x.Args[0])+")"]; ok {
 				return v, nil
 			}
 		}
@@ -75,29 +80,29 @@ func intExpr(p *fg.Parsed, e ast.Expr, vars map[string]string) (string, error) {
 		case token.MUL:
 			op = "*"
 		default:
-			return "", fmt.Errorf("unsupported integer operator %s in %s", x.Op, p.Src(e))
+			return "", fmt.Errorf("unsupported integer operator %s in %s", x.Op, f.Src(e))
 		}
-		a, err := intExpr(p, x.X, vars)
+		a, err := intExpr(f, x.X, vars)
 		if err != nil {
 			return "", err
 		}
-		b, err := intExpr(p, x.Y, vars)
+		b, err := intExpr(f, x.Y, vars)
 		if err != nil {
 			return "", err
 		}
 		return "(" + a + " " + op + " " + b + ")", nil
 	}
-	return "", fmt.Errorf("cannot translate integer expression %q", p.Src(e))
+	return "", fmt.Errorf("cannot translate integer expression %q", f.Src(e))
 }
 
 // cmpExpr translates a comparison `a <op> b` to a Lean Bool term, keeping operator and operand order.
-func cmpExpr(p *fg.Parsed, e ast.Expr, vars map[string]string) (string, error) {
+func cmpExpr(f *NF, e ast.Expr, vars map[string]string) (string, error) {
 	if pe, ok := e.(*ast.ParenExpr); ok {
-		return cmpExpr(p, pe.X, vars)
+		return cmpExpr(f, pe.X, vars)
 	}
 	be, ok := e.(*ast.BinaryExpr)
 	if !ok {
-		return "", fmt.Errorf("not a comparison: %q", p.Src(e))
+		return "", fmt.Errorf("not a comparison: %q", f.Src(e))
 	}
 	var op string
 	switch be.Op {
@@ -114,13 +119,13 @@ func cmpExpr(p *fg.Parsed, e ast.Expr, vars map[string]string) (string, error) {
 	case token.NEQ:
 		op = "≠"
 	default:
-		return "", fmt.Errorf("not a comparison: %q", p.Src(e))
+		return "", fmt.Errorf("not a comparison: %q", f.Src(e))
 	}
-	a, err := intExpr(p, be.X, vars)
+	a, err := intExpr(f, be.X, vars)
 	if err != nil {
 		return "", err
 	}
-	b, err := intExpr(p, be.Y, vars)
+	b, err := intExpr(f, be.Y, vars)
 	if err != nil {
 		return "", err
 	}
@@ -128,16 +133,16 @@ func cmpExpr(p *fg.Parsed, e ast.Expr, vars map[string]string) (string, error) {
 }
 
 // boolExpr translates a condition built from the named atoms with ! && ||.
-func boolExpr(p *fg.Parsed, e ast.Expr, atoms map[string]string) (string, error) {
-	if v, ok := atoms[norm(p.Src(e))]; ok {
+func boolExpr(f *NF, e ast.Expr, atoms map[string]string) (string, error) {
+	if v, ok := atoms[f.Src(e)]; ok {
 		return v, nil
 	}
 	switch x := e.(type) {
 	case *ast.ParenExpr:
-		return boolExpr(p, x.X, atoms)
+		return boolExpr(f, x.X, atoms)
 	case *ast.UnaryExpr:
 		if x.Op == token.NOT {
-			a, err := boolExpr(p, x.X, atoms)
+			a, err := boolExpr(f, x.X, atoms)
 			if err != nil {
 				return "", err
 			}
@@ -145,11 +150,11 @@ func boolExpr(p *fg.Parsed, e ast.Expr, atoms map[string]string) (string, error)
 		}
 	case *ast.BinaryExpr:
 		if x.Op == token.LAND || x.Op == token.LOR {
-			a, err := boolExpr(p, x.X, atoms)
+			a, err := boolExpr(f, x.X, atoms)
 			if err != nil {
 				return "", err
 			}
-			b, err := boolExpr(p, x.Y, atoms)
+			b, err := boolExpr(f, x.Y, atoms)
 			if err != nil {
 				return "", err
 			}
@@ -160,67 +165,75 @@ func boolExpr(p *fg.Parsed, e ast.Expr, atoms map[string]string) (string, error)
 			return "(" + a + " " + op + " " + b + ")", nil
 		}
 	}
-	return "", fmt.Errorf("unknown condition atom %q", norm(p.Src(e)))
+	return "", fmt.Errorf("unknown condition atom %q", f.Src(e))
 }
 
-// reach computes the condition (over atoms) under which a statement whose text contains target is executed inside
-// the statement list (if / else trees only, no early exits inside).
-func reach(p *fg.Parsed, list []ast.Stmt, target string, atoms map[string]string) (string, bool, error) {
+func conj(a, b string) string {
+	switch {
+	case a == "true":
+		return b
+	case b == "true":
+		return a
+	}
+	return "(" + a + " && " + b + ")"
+}
+
+// reach computes the condition (over atoms) under which a statement whose text contains target is executed inside the
+// statement list, which is entered under the condition `live`.  Guard clauses (`if c { continue }`) restrict what
+// follows them; if / else trees nest.
+func reach(f *NF, list []ast.Stmt, target string, atoms map[string]string, live string) (string, bool, error) {
 	var alts []string
 	for _, s := range list {
-		switch x := s.(type) {
-		case *ast.IfStmt:
-			if x.Init != nil {
-				if strings.Contains(p.Src(x), target) {
-					return "", false, fmt.Errorf("if with init around %q", target)
-				}
-				continue
+		is, ok := s.(*ast.IfStmt)
+		if !ok {
+			if strings.Contains(f.Src(s), target) {
+				alts = append(alts, live)
 			}
-			c, err := boolExpr(p, x.Cond, atoms)
-			inThen, inElse := strings.Contains(p.Src(x.Body), target), x.Else != nil && strings.Contains(p.Src(x.Else), target)
-			if !inThen && !inElse {
-				continue
+			continue
+		}
+		if is.Init != nil {
+			if strings.Contains(f.Src(is), target) {
+				return "", false, fmt.Errorf("if with init around %q", target)
 			}
+			continue
+		}
+		inThen := strings.Contains(f.Src(is.Body), target)
+		inElse := is.Else != nil && strings.Contains(f.Src(is.Else), target)
+		thenLeaves := leaves(is.Body.List)
+		if !inThen && !inElse && !thenLeaves {
+			continue
+		}
+		c, err := boolExpr(f, is.Cond, atoms)
+		if err != nil {
+			return "", false, err
+		}
+		if inThen {
+			r, ok, err := reach(f, is.Body.List, target, atoms, conj(live, c))
 			if err != nil {
 				return "", false, err
 			}
-			if inThen {
-				r, ok, err := reach(p, x.Body.List, target, atoms)
-				if err != nil {
-					return "", false, err
-				}
-				if ok {
-					if r == "true" {
-						alts = append(alts, c)
-					} else {
-						alts = append(alts, "("+c+" && "+r+")")
-					}
-				}
+			if ok {
+				alts = append(alts, r)
 			}
-			if inElse {
-				var el []ast.Stmt
-				switch eb := x.Else.(type) {
-				case *ast.BlockStmt:
-					el = eb.List
-				default:
-					el = []ast.Stmt{eb}
-				}
-				r, ok, err := reach(p, el, target, atoms)
-				if err != nil {
-					return "", false, err
-				}
-				if ok {
-					if r == "true" {
-						alts = append(alts, "(!"+c+")")
-					} else {
-						alts = append(alts, "((!"+c+") && "+r+")")
-					}
-				}
+		}
+		if inElse {
+			var el []ast.Stmt
+			switch eb := is.Else.(type) {
+			case *ast.BlockStmt:
+				el = eb.List
+			default:
+				el = []ast.Stmt{eb}
 			}
-		default:
-			if strings.Contains(p.Src(s), target) {
-				alts = append(alts, "true")
+			r, ok, err := reach(f, el, target, atoms, conj(live, "(!"+c+")"))
+			if err != nil {
+				return "", false, err
 			}
+			if ok {
+				alts = append(alts, r)
+			}
+		}
+		if thenLeaves && is.Else == nil {
+			live = conj(live, "(!"+c+")")
 		}
 	}
 	if len(alts) == 0 {
@@ -232,17 +245,214 @@ func reach(p *fg.Parsed, list []ast.Stmt, target string, atoms map[string]string
 	return "(" + strings.Join(alts, " || ") + ")", true, nil
 }
 
-// ---- AST helpers -----------------------------------------------------------------------------------------------
+// reachableUnder: can a statement containing target be executed when the named conditions have the given values
+// (all other conditions are free)?
+func reachableUnder(f *NF, list []ast.Stmt, target string, env map[string]bool) bool {
+	r, _ := reachableRec(f, list, target, env)
+	return r
+}
+
+// returns (target reachable, the list may be left by falling off its end)
+func reachableRec(f *NF, list []ast.Stmt, target string, env map[string]bool) (bool, bool) {
+	for _, s := range list {
+		is, ok := s.(*ast.IfStmt)
+		if !ok {
+			if strings.Contains(f.Src(s), target) {
+				return true, true
+			}
+			if leaves([]ast.Stmt{s}) {
+				return false, false
+			}
+			continue
+		}
+		if is.Init != nil && strings.Contains(f.Src(is.Init), target) {
+			return true, true
+		}
+		val, known := evalCond(f, is.Cond, env)
+		thenFalls, elseFalls := false, true
+		if !known || val {
+			r, falls := reachableRec(f, is.Body.List, target, env)
+			if r {
+				return true, true
+			}
+			thenFalls = falls
+		}
+		if is.Else != nil && (!known || !val) {
+			var el []ast.Stmt
+			switch eb := is.Else.(type) {
+			case *ast.BlockStmt:
+				el = eb.List
+			default:
+				el = []ast.Stmt{eb}
+			}
+			r, falls := reachableRec(f, el, target, env)
+			if r {
+				return true, true
+			}
+			elseFalls = falls
+		}
+		if known && val && !thenFalls {
+			return false, false
+		}
+		if known && !val && is.Else != nil && !elseFalls {
+			return false, false
+		}
+		if !known && !thenFalls && is.Else != nil && !elseFalls {
+			return false, false
+		}
+	}
+	return false, true
+}
+
+func evalCond(f *NF, e ast.Expr, env map[string]bool) (bool, bool) {
+	if v, ok := env[f.Src(e)]; ok {
+		return v, true
+	}
+	switch x := e.(type) {
+	case *ast.ParenExpr:
+		return evalCond(f, x.X, env)
+	case *ast.UnaryExpr:
+		if x.Op == token.NOT {
+			v, k := evalCond(f, x.X, env)
+			return !v, k
+		}
+	case *ast.BinaryExpr:
+		a, ka := evalCond(f, x.X, env)
+		b, kb := evalCond(f, x.Y, env)
+		switch x.Op {
+		case token.LAND:
+			if (ka && !a) || (kb && !b) {
+				return false, true
+			}
+			return a && b, ka && kb
+		case token.LOR:
+			if (ka && a) || (kb && b) {
+				return true, true
+			}
+			return a || b, ka && kb
+		}
+	}
+	return false, false
+}
+
+// ---- decision lists ------------------------------------------------------------------------------------------------
+
+// actionOfReturn names what a return statement does.
+func actionOfReturn(f *NF, r *ast.ReturnStmt) string {
+	t := f.Src(r)
+	switch {
+	case strings.Contains(t, "p.releaseIP(keyObj.KeyInDB"):
+		return "release"
+	case strings.Contains(t, "p.reserveIP(keyObj.KeyInDB, keyObj.PoolPrefix()"):
+		return "reserve-prefix"
+	case strings.Contains(t, "p.reserveIP(keyObj.KeyInDB, keyObj.KeyInDB"):
+		return "reserve-own"
+	case t == "return nil":
+		return "nil"
+	case t == "return":
+		return "return"
+	}
+	if len(r.Results) > 0 {
+		first := f.Src(r.Results[0])
+		last := f.Src(r.Results[len(r.Results)-1])
+		if first == "true" || first == "false" {
+			if last == "nil" || len(r.Results) == 1 {
+				return first
+			}
+			return "error"
+		}
+		if last != "nil" && (strings.Contains(last, "err") || strings.Contains(last, "fmt.Errorf") ||
+			last == "NotStatefulWorkload" || last == "NoReplicas") {
+			return "error"
+		}
+	}
+	return t
+}
+
+// decisions lists a canonical statement sequence as (condition, action) pairs: `if c { … }` gives (c, summary of the
+// body); calls that define locals give ("let", text); defers ("defer", text); a return gives ("otherwise", action).
+func decisions(f *NF, list []ast.Stmt) [][2]string {
+	var out [][2]string
+	for _, s := range list {
+		switch x := s.(type) {
+		case *ast.IfStmt:
+			cur := x
+			for cur != nil {
+				cond := f.Src(cur.Cond)
+				if cur.Init != nil {
+					cond = f.Src(cur.Init) + "; " + cond
+				}
+				out = append(out, [2]string{cond, summary(f, cur.Body.List)})
+				switch e := cur.Else.(type) {
+				case *ast.IfStmt:
+					cur = e
+				case *ast.BlockStmt:
+					out = append(out, [2]string{"else", summary(f, e.List)})
+					cur = nil
+				default:
+					cur = nil
+				}
+			}
+		case *ast.AssignStmt:
+			if len(x.Rhs) == 1 {
+				if c, ok := x.Rhs[0].(*ast.CallExpr); ok && !strings.HasPrefix(calleeText(c), "fmt.") {
+					out = append(out, [2]string{"let", f.Src(x)})
+				}
+			}
+		case *ast.DeferStmt:
+			out = append(out, [2]string{"defer", strings.TrimPrefix(f.Src(x), "defer ")})
+		case *ast.ReturnStmt:
+			out = append(out, [2]string{"otherwise", actionOfReturn(f, x)})
+		case *ast.RangeStmt:
+			out = append(out, [2]string{"for", f.Src(x.X)})
+		}
+	}
+	return out
+}
+
+func summary(f *NF, list []ast.Stmt) string {
+	var parts []string
+	for _, d := range decisions(f, list) {
+		switch d[0] {
+		case "otherwise":
+			parts = append(parts, d[1])
+		case "let", "defer", "for":
+			parts = append(parts, "["+d[0]+" "+d[1]+"]")
+		default:
+			if d[1] != "" {
+				parts = append(parts, "["+d[0]+" -> "+d[1]+"]")
+			}
+		}
+	}
+	return strings.Join(parts, " ")
+}
+
+func leanPairs(ps [][2]string) string {
+	var l []string
+	for _, x := range ps {
+		l = append(l, "("+fg.LeanStr(x[0])+", "+fg.LeanStr(x[1])+")")
+	}
+	return "[" + strings.Join(l, ",\n   ") + "]"
+}
+
+func indexOf(ps [][2]string, kind, sub string) int {
+	for i, p := range ps {
+		if (kind == "" || p[0] == kind) && strings.Contains(p[0]+" "+p[1], sub) {
+			return i
+		}
+	}
+	return -1
+}
 
 // findIf returns the first if statement (any depth) inside n whose condition text contains all of subs.
-func findIf(p *fg.Parsed, n ast.Node, subs ...string) *ast.IfStmt {
+func findIf(f *NF, n ast.Node, subs ...string) *ast.IfStmt {
 	var out *ast.IfStmt
 	ast.Inspect(n, func(x ast.Node) bool {
 		if out != nil {
 			return false
 		}
 		if is, ok := x.(*ast.IfStmt); ok {
-			c := norm(p.Src(is.Cond))
+			c := f.Src(is.Cond)
 			all := true
 			for _, s := range subs {
 				if !strings.Contains(c, s) {
@@ -259,91 +469,25 @@ func findIf(p *fg.Parsed, n ast.Node, subs ...string) *ast.IfStmt {
 	return out
 }
 
-func topIndex(p *fg.Parsed, body *ast.BlockStmt, sub string) int { return p.StmtIndex(body, sub) }
-
-func blockReturns(p *fg.Parsed, b *ast.BlockStmt, sub string) bool {
-	if b == nil {
-		return false
-	}
-	for _, s := range b.List {
-		if r, ok := s.(*ast.ReturnStmt); ok && strings.Contains(norm(p.Src(r)), sub) {
-			return true
-		}
-	}
-	return false
-}
-
-// chain lists the (condition, action) pairs of an if / else-if chain that starts at statement `first`; action is the
-// summary of the branch body given by summarise.
-func chain(p *fg.Parsed, first *ast.IfStmt, summarise func(b *ast.BlockStmt) string) [][2]string {
-	var out [][2]string
-	cur := first
-	for cur != nil {
-		out = append(out, [2]string{norm(p.Src(cur.Cond)), summarise(cur.Body)})
-		switch e := cur.Else.(type) {
-		case *ast.IfStmt:
-			cur = e
-		case *ast.BlockStmt:
-			out = append(out, [2]string{"else", summarise(e)})
-			cur = nil
-		default:
-			cur = nil
-		}
-	}
-	return out
-}
-
-// actionOf summarises a block by the release / reserve calls it contains, in order, with nested conditions.
-func actionOf(p *fg.Parsed) func(b *ast.BlockStmt) string {
-	var f func(b *ast.BlockStmt) string
-	f = func(b *ast.BlockStmt) string {
-		var parts []string
-		for _, s := range b.List {
-			switch x := s.(type) {
-			case *ast.ReturnStmt:
-				t := norm(p.Src(x))
-				switch {
-				case strings.Contains(t, "p.releaseIP(key"):
-					parts = append(parts, "release")
-				case strings.Contains(t, "p.reserveIP(key, prefixKey"):
-					parts = append(parts, "reserve-prefix")
-				case strings.Contains(t, "p.reserveIP(key, key"):
-					parts = append(parts, "reserve-own")
-				case t == "return nil":
-					parts = append(parts, "nil")
-				case strings.HasPrefix(t, "return err") || strings.Contains(t, "fmt.Errorf") || strings.Contains(t, "return NotStatefulWorkload") || strings.Contains(t, "return NoReplicas"):
-					parts = append(parts, "error")
-				default:
-					parts = append(parts, "return?")
-				}
-			case *ast.IfStmt:
-				for _, c := range chain(p, x, f) {
-					if c[1] != "" {
-						parts = append(parts, "["+c[0]+" -> "+c[1]+"]")
-					}
-				}
-			}
-		}
-		return strings.Join(parts, " ")
-	}
-	return f
-}
-
-func leanPairs(ps [][2]string) string {
-	var l []string
-	for _, x := range ps {
-		l = append(l, "("+fg.LeanStr(x[0])+", "+fg.LeanStr(x[1])+")")
-	}
-	return "[" + strings.Join(l, ",\n   ") + "]"
-}
-
-func deferIdx(p *fg.Parsed, list []ast.Stmt, sub string) int {
+func stmtIdx(f *NF, list []ast.Stmt, sub string) int {
 	for i, s := range list {
-		if d, ok := s.(*ast.DeferStmt); ok && strings.Contains(norm(p.Src(d)), sub) {
+		if strings.Contains(f.Src(s), sub) {
 			return i
 		}
 	}
 	return -1
+}
+
+func blockReturns(f *NF, b *ast.BlockStmt, sub string) bool {
+	if b == nil {
+		return false
+	}
+	for _, s := range b.List {
+		if r, ok := s.(*ast.ReturnStmt); ok && strings.Contains(f.Src(r), sub) {
+			return true
+		}
+	}
+	return false
 }
 
 func before(a, b int) bool { return a >= 0 && b >= 0 && a < b }
@@ -357,6 +501,12 @@ func gen(repo string) (map[string]string, error) {
 	b.WriteString("set_option linter.unusedVariables false\nnamespace Galaxy.Generated.C03\n\n")
 	say := func(doc, def string) { fmt.Fprintf(&b, "/-- %s -/\n%s\n\n", doc, def) }
 	fact := func(doc, name string, v bool) { say(doc, fmt.Sprintf("def %s : Bool := %s", name, fg.LeanBool(v))) }
+
+	forms, err := canonicalForms(repo)
+	if err != nil {
+		return nil, err
+	}
+	dump(forms)
 
 	// ---------------------------------------------------------------- constants
 	cs, err := fg.ParseFile(repo, "pkg/api/galaxy/constant/constant.go")
@@ -406,41 +556,32 @@ func gen(repo string) (map[string]string, error) {
 		}
 		fmt.Fprintf(&b, "def %s : String := %s\n", c[1], fg.LeanStr(v))
 	}
-	// ConvertReleasePolicy: switch policyStr { case Never: …; case Immutable: …; default: … }
-	conv, err := cs.Fn("", "ConvertReleasePolicy")
-	if err != nil {
-		return nil, err
-	}
+	// ConvertReleasePolicy (canonical: an if chain on `policyStr == <const>`)
+	conv := forms["ConvertReleasePolicy"]
 	var convTbl []string
 	convDefault := -1
-	ast.Inspect(conv, func(n ast.Node) bool {
-		cc, ok := n.(*ast.CaseClause)
-		if !ok {
-			return true
-		}
-		ret := ""
-		for _, s := range cc.Body {
-			if r, ok := s.(*ast.ReturnStmt); ok && len(r.Results) == 1 {
-				ret = cs.Src(r.Results[0])
-			}
-		}
+	for _, d := range decisions(conv, conv.Decl.Body.List) {
+		ret := strings.TrimPrefix(strings.TrimPrefix(d[1], "return "), "constant.")
 		v, ok := val[ret]
 		if !ok {
 			v = -1
 		}
-		if cc.List == nil {
+		if d[0] == "otherwise" || d[0] == "else" {
 			convDefault = v
-			return true
+			continue
 		}
-		for _, e := range cc.List {
-			s, err := cs.ConstString(cs.Src(e))
+		for _, alt := range strings.Split(d[0], "||") {
+			alt = strings.TrimSpace(alt)
+			if !strings.HasPrefix(alt, "policyStr == ") {
+				return nil, fmt.Errorf("constant.go: ConvertReleasePolicy has an untranslatable case %q", d[0])
+			}
+			s, err := cs.ConstString(strings.TrimPrefix(alt, "policyStr == "))
 			if err != nil {
-				s = "?" + cs.Src(e)
+				s = "?" + alt
 			}
 			convTbl = append(convTbl, fmt.Sprintf("(%s, %d)", fg.LeanStr(s), v))
 		}
-		return true
-	})
+	}
 	if convDefault < 0 {
 		return nil, fmt.Errorf("constant.go: ConvertReleasePolicy has no translatable default case")
 	}
@@ -464,240 +605,148 @@ func gen(repo string) (map[string]string, error) {
 	fmt.Fprintf(&b, "def ipPoolAnnotation : String := %s\n\n", fg.LeanStr(poolAnn))
 
 	// ---------------------------------------------------------------- parseReleasePolicy
-	fp, err := fg.ParseFile(repo, dir+"floatingip_plugin.go")
-	if err != nil {
-		return nil, err
-	}
-	prp, err := fp.Fn("", "parseReleasePolicy")
-	if err != nil {
-		return nil, err
-	}
-	poolIf := findIf(fp, prp, `pool != ""`)
-	poolIdx, convIdx := -1, topIndex(fp, prp.Body, "constant.ConvertReleasePolicy(meta.Annotations[constant.ReleasePolicyAnnotation])")
-	for i, s := range prp.Body.List {
-		if s == ast.Stmt(poolIf) {
-			poolIdx = i
-		}
-	}
+	prp := forms["parseReleasePolicy"]
+	pd := decisions(prp, prp.Decl.Body.List)
+	poolI := indexOf(pd, "", `constant.GetPool(meta.Annotations) != ""`)
+	convI := indexOf(pd, "otherwise", "constant.ConvertReleasePolicy(meta.Annotations[constant.ReleasePolicyAnnotation])")
 	fact("`parseReleasePolicy`: a non-empty pool annotation returns ReleasePolicyNever BEFORE the release-policy annotation is looked at",
-		"poolAnnotationForcesNever", poolIf != nil && blockReturns(fp, poolIf.Body, "constant.ReleasePolicyNever") && before(poolIdx, convIdx) &&
-			strings.Contains(norm(fp.Src(prp.Body)), "pool := constant.GetPool(meta.Annotations)"))
+		"poolAnnotationForcesNever", before(poolI, convI) && strings.Contains(pd[poolI][1], "constant.ReleasePolicyNever"))
 
 	// ---------------------------------------------------------------- supportReserveIPPolicy
-	sup, err := fp.Fn("FloatingIPPlugin", "supportReserveIPPolicy")
-	if err != nil {
-		return nil, err
-	}
-	var supTbl [][2]string
-	for _, s := range sup.Body.List {
-		switch x := s.(type) {
-		case *ast.IfStmt:
-			supTbl = append(supTbl, [2]string{norm(fp.Src(x.Cond)), actionOf(fp)(x.Body)})
-		case *ast.ReturnStmt:
-			supTbl = append(supTbl, [2]string{"otherwise", norm(fp.Src(x))})
-		case *ast.AssignStmt:
-			supTbl = append(supTbl, [2]string{"let", norm(fp.Src(x))})
-		}
-	}
-	say("`supportReserveIPPolicy`, statement by statement: (condition, result)",
-		"def supportReserveTable : List (String × String) :=\n  "+leanPairs(supTbl))
+	sup := forms["supportReserveIPPolicy"]
+	say("`supportReserveIPPolicy` as a decision list: (condition, result)",
+		"def supportReserveTable : List (String × String) :=\n  "+leanPairs(decisions(sup, sup.Decl.Body.List)))
 
 	// ---------------------------------------------------------------- statefulset.go
-	st, err := fg.ParseFile(repo, dir+"statefulset.go")
-	if err != nil {
-		return nil, err
-	}
-	sr, err := st.Fn("FloatingIPPlugin", "shouldRelease")
-	if err != nil {
-		return nil, err
-	}
-	scaled := (*ast.IfStmt)(nil)
-	appGuard, idxParse, idxScaled := -1, topIndex(st, sr.Body, "parsePodIndex(keyObj.KeyInDB)"), -1
-	for i, s := range sr.Body.List {
-		if is, ok := s.(*ast.IfStmt); ok {
-			if norm(st.Src(is.Cond)) == "!parentAppExist" && blockReturns(st, is.Body, "return true") {
-				appGuard = i
-			}
-			if blockReturns(st, is.Body, "return true, deletedAndScaledDownAppPod") {
-				scaled, idxScaled = is, i
-			}
+	sr := forms["shouldRelease"]
+	var scaled *ast.IfStmt
+	for _, s := range sr.Decl.Body.List {
+		if is, ok := s.(*ast.IfStmt); ok && blockReturns(sr, is.Body, "return true, deletedAndScaledDownAppPod") {
+			scaled = is
 		}
 	}
 	if scaled == nil {
 		return nil, fmt.Errorf("statefulset.go: shouldRelease no longer has an `if <cmp> { return true, deletedAndScaledDownAppPod, nil }`")
 	}
-	c, err := cmpExpr(st, scaled.Cond, map[string]string{"replicas": "replicas", "index": "index"})
+	c, err := cmpExpr(sr, scaled.Cond, map[string]string{"replicas": "replicas", "index": "index"})
 	if err != nil {
 		return nil, fmt.Errorf("statefulset.go shouldRelease: %v", err)
 	}
-	say("`shouldRelease`: the scaled-down test, source text `"+norm(st.Src(scaled.Cond))+"`",
+	say("`shouldRelease`: the scaled-down test, source text `"+sr.Src(scaled.Cond)+"`",
 		"def shouldReleaseScaledDown (replicas index : Int) : Bool := "+c)
-	last := sr.Body.List[len(sr.Body.List)-1]
-	fact("`shouldRelease`: a missing parent app returns true first; then the pod index is parsed from the key (error = no decision); then the scaled-down test; otherwise false",
-		"shouldReleaseShape", before(appGuard, idxParse) && before(idxParse, idxScaled) && idxScaled == len(sr.Body.List)-2 &&
-			strings.HasPrefix(norm(st.Src(last)), "return false"))
+	srd := decisions(sr, sr.Decl.Body.List)
+	for i := range srd {
+		if srd[i][0] == sr.Src(scaled.Cond) {
+			srd[i][0] = "<scaled-down test>"
+		}
+	}
+	say("`shouldRelease` as a decision list (the comparison itself is `shouldReleaseScaledDown`)",
+		"def shouldReleaseTable : List (String × String) :=\n  "+leanPairs(srd))
 
-	und, err := st.Fn("FloatingIPPlugin", "unbindNoneDpPod")
-	if err != nil {
-		return nil, err
-	}
-	var first *ast.IfStmt
-	for _, s := range und.Body.List {
-		if is, ok := s.(*ast.IfStmt); ok && first == nil {
-			first = is
-		}
-	}
-	if first == nil {
-		return nil, fmt.Errorf("statefulset.go: unbindNoneDpPod has no if chain")
-	}
-	say("`unbindNoneDpPod`: the if / else-if chain as (condition, actions)",
-		"def unbindNoneDpTable : List (String × String) :=\n  "+leanPairs(chain(st, first, actionOf(st))))
-	gsr, err := st.Fn("FloatingIPPlugin", "getStsReplicas")
-	if err != nil {
-		return nil, err
-	}
-	gs := norm(st.Src(gsr.Body))
+	und := forms["unbindNoneDpPod"]
+	say("`unbindNoneDpPod` as a decision list: (condition, actions)",
+		"def unbindNoneDpTable : List (String × String) :=\n  "+leanPairs(decisions(und, und.Decl.Body.List)))
+	gsr := forms["getStsReplicas"]
 	fact("`getStsReplicas`: NotFound means the app does not exist (no error); found means appExist with spec.replicas (default 1)",
-		"stsReplicasShape", strings.Contains(gs, "if !metaErrs.IsNotFound(err) { retErr = err return }") &&
-			strings.Contains(gs, "appExist = true replicas = 1 if ss.Spec.Replicas != nil { replicas = *ss.Spec.Replicas }"))
-	car, err := st.Fn("FloatingIPPlugin", "checkAppAndReplicas")
-	if err != nil {
-		return nil, err
-	}
-	var carFirst *ast.IfStmt
-	for _, s := range car.Body.List {
-		if is, ok := s.(*ast.IfStmt); ok && carFirst == nil {
-			carFirst = is
-		}
-	}
-	carOK := false
-	if carFirst != nil {
-		ch := chain(st, carFirst, func(bl *ast.BlockStmt) string { return "" })
-		carOK = len(ch) == 3 && ch[0][0] == "keyObj.StatefulSet()" && ch[1][0] == "gvr != nil" && ch[2][0] == "else" &&
-			strings.Contains(norm(st.Src(car.Body)), "else if gvr := p.crdKey.GetGroupVersionResource(keyObj.AppTypePrefix); gvr != nil") &&
-			strings.Contains(norm(st.Src(carFirst.Body)), "return p.getStsReplicas(keyObj)") &&
-			strings.Contains(norm(st.Src(car.Body)), "p.crdCache.GetReplicas(*gvr, keyObj.Namespace, keyObj.AppName)")
-	}
+		"stsReplicasShape", strings.Contains(gsr.Text, "if err != nil { if !metaErrs.IsNotFound(err) { retErr = err return } } else { appExist = true replicas = 1 if obj.Spec.Replicas != nil { replicas = *obj.Spec.Replicas } }"))
+	car := forms["checkAppAndReplicas"]
+	cd := decisions(car, car.Decl.Body.List)
 	fact("`checkAppAndReplicas`: statefulset lister, else the replicas of a scalable custom resource, else error",
-		"checkAppAndReplicasShape", carOK)
+		"checkAppAndReplicasShape", len(cd) >= 3 && cd[0][0] == "keyObj.StatefulSet()" && strings.Contains(car.Src(car.Decl.Body.List[0]), "return p.getStsReplicas(keyObj)") &&
+			strings.HasPrefix(cd[1][0], "gvr := p.crdKey.GetGroupVersionResource(keyObj.AppTypePrefix); gvr != nil") && cd[2][0] == "else" &&
+			strings.Contains(car.Text, "p.crdCache.GetReplicas(*gvr, keyObj.Namespace, keyObj.AppName)"))
 
 	// ---------------------------------------------------------------- deployment.go
-	dp, err := fg.ParseFile(repo, dir+"deployment.go")
-	if err != nil {
-		return nil, err
-	}
-	ub, err := dp.Fn("FloatingIPPlugin", "unbindDpPod")
-	if err != nil {
-		return nil, err
-	}
-	zero := findIf(dp, ub, "replicas", "0")
-	exceed := findIf(dp, ub, "len(fips)", "replicas")
+	ub := forms["unbindDpPod"]
+	zero := findIf(ub, ub.Decl.Body, "replicas", "0")
+	exceed := findIf(ub, ub.Decl.Body, "len(fips)", "replicas")
 	if zero == nil || exceed == nil {
 		return nil, fmt.Errorf("deployment.go: unbindDpPod no longer has the `replicas == 0` / `len(fips) > replicas` tests")
 	}
-	cz, err := cmpExpr(dp, zero.Cond, map[string]string{"replicas": "replicas"})
+	cz, err := cmpExpr(ub, zero.Cond, map[string]string{"replicas": "replicas"})
 	if err != nil {
 		return nil, fmt.Errorf("deployment.go unbindDpPod: %v", err)
 	}
-	ce, err := cmpExpr(dp, exceed.Cond, map[string]string{"replicas": "replicas", "len(fips)": "nFips"})
+	ce, err := cmpExpr(ub, exceed.Cond, map[string]string{"replicas": "replicas", "len(fips)": "nFips"})
 	if err != nil {
 		return nil, fmt.Errorf("deployment.go unbindDpPod: %v", err)
 	}
-	say("`unbindDpPod` (immutable): release at once when `"+norm(dp.Src(zero.Cond))+"`", "def dpNoReplicas (replicas : Int) : Bool := "+cz)
-	say("`unbindDpPod` (immutable): release the exceeding part when `"+norm(dp.Src(exceed.Cond))+"` (nFips = number of records under the pool / app prefix)",
+	say("`unbindDpPod` (immutable): release at once when `"+ub.Src(zero.Cond)+"`", "def dpNoReplicas (replicas : Int) : Bool := "+cz)
+	say("`unbindDpPod` (immutable): release the exceeding part when `"+ub.Src(exceed.Cond)+"` (nFips = number of records under the pool / app prefix)",
 		"def dpExceeds (nFips replicas : Int) : Bool := "+ce)
-	var polFirst *ast.IfStmt
-	for _, s := range ub.Body.List {
-		if is, ok := s.(*ast.IfStmt); ok && polFirst == nil {
-			polFirst = is
+	ud := decisions(ub, ub.Decl.Body.List)
+	for i := range ud {
+		switch ud[i][0] {
+		case ub.Src(zero.Cond):
+			ud[i][0] = "<no-replicas test>"
+		case ub.Src(exceed.Cond):
+			ud[i][0] = "<exceeds test>"
 		}
 	}
-	act := actionOf(dp)
-	var dpTbl [][2]string
-	if polFirst != nil {
-		dpTbl = append(dpTbl, chain(dp, polFirst, act)...)
-	}
-	dpTbl = append(dpTbl, [2]string{norm(dp.Src(zero.Cond)), act(zero.Body)})
-	dpTbl = append(dpTbl, chain(dp, exceed, act)...)
-	say("`unbindDpPod`: policy chain, then the immutable branch, as (condition, actions)",
-		"def unbindDpTable : List (String × String) :=\n  "+leanPairs(dpTbl))
-	idx := func(s ast.Stmt) int {
-		for i, x := range ub.Body.List {
-			if x == s {
-				return i
-			}
+	say("`unbindDpPod` as a decision list: policy branches, replicas lookup, pool lock, count, decision - in source order (the two comparisons are `dpNoReplicas` / `dpExceeds`)",
+		"def unbindDpTable : List (String × String) :=\n  "+leanPairs(ud))
+	lockI := indexOf(ud, "defer", "p.LockDpPool(keyObj.PoolPrefix())()")
+	byI := indexOf(ud, "let", "p.ipam.ByPrefix(keyObj.PoolPrefix())")
+	exI := indexOf(ud, "<exceeds test>", "")
+	lastReserve := -1
+	for i, d := range ud {
+		if strings.Contains(d[1], "reserve-prefix") || strings.Contains(d[1], "release") {
+			lastReserve = i
 		}
-		return -1
 	}
-	lockI := deferIdx(dp, ub.Body.List, "p.LockDpPool(prefixKey)()")
-	byI := topIndex(dp, ub.Body, "p.ipam.ByPrefix(prefixKey)")
-	fact("`unbindDpPod`: `defer p.LockDpPool(prefixKey)()` comes before the `ByPrefix(prefixKey)` count, which comes before the release / reserve decision; prefixKey is keyObj.PoolPrefix()",
-		"unbindDpCountAndDecisionUnderPoolLock", before(lockI, byI) && before(byI, idx(exceed)) && before(idx(zero), lockI) &&
-			strings.Contains(norm(dp.Src(ub.Body)), "key, prefixKey := keyObj.KeyInDB, keyObj.PoolPrefix()"))
-	grd, err := dp.Fn("FloatingIPPlugin", "getReplicasOfDeployment")
-	if err != nil {
-		return nil, err
-	}
-	g := norm(dp.Src(grd.Body))
+	zeroI := indexOf(ud, "<no-replicas test>", "")
+	fact("`unbindDpPod`: `defer p.LockDpPool(PoolPrefix())()` comes before the `ByPrefix(PoolPrefix())` count, which comes before the release / reserve decision of the immutable branch; the `replicas == 0` shortcut precedes the lock",
+		"unbindDpCountAndDecisionUnderPoolLock", before(lockI, byI) && before(byI, exI) && before(zeroI, lockI) && exI <= lastReserve &&
+			strings.Count(ub.Text, "LockDpPool(") == 1)
+	grd := forms["getReplicasOfDeployment"]
 	fact("`getReplicasOfDeployment`: a deployment the lister does not know has 0 replicas (no error)",
-		"dpMissingMeansZeroReplicas", strings.Contains(g, "replicas := 0 if err != nil { if !metaErrs.IsNotFound(err) { return 0, err } } else { replicas = int(*dp.Spec.Replicas) } return replicas, nil"))
-	gdr, err := dp.Fn("FloatingIPPlugin", "getDpReplicas")
-	if err != nil {
-		return nil, err
-	}
-	g = norm(dp.Src(gdr.Body))
+		"dpMissingMeansZeroReplicas", strings.Contains(grd.Text, "replicas := 0 if err != nil { if !metaErrs.IsNotFound(err) { return 0, err } } else { replicas = int(*obj.Spec.Replicas) } return replicas, nil"))
+	gdr := forms["getDpReplicas"]
 	fact("`getDpReplicas`: a named pool with a Pool object gives (pool.Size, true); otherwise the deployment's replicas and false",
-		"dpReplicasShape", strings.Contains(g, `if keyObj.PoolName != ""`) && strings.Contains(g, "return pool.Size, true, nil") &&
-			strings.Contains(g, "return replicas, false, nil"))
+		"dpReplicasShape", strings.Contains(gdr.Text, `if keyObj.PoolName != ""`) && strings.Contains(gdr.Text, "return obj.Size, true, nil") &&
+			strings.Contains(gdr.Text, "return replicas, false, nil"))
 
 	// ---------------------------------------------------------------- ipam.go getAvailableSubnet
-	ip, err := fg.ParseFile(repo, dir+"ipam.go")
-	if err != nil {
-		return nil, err
-	}
-	gas, err := ip.Fn("FloatingIPPlugin", "getAvailableSubnet")
-	if err != nil {
-		return nil, err
-	}
-	outer := findIf(ip, gas, "keyObj.Deployment()", "policy")
+	gas := forms["getAvailableSubnet"]
+	outer := findIf(gas, gas.Decl.Body, "keyObj.Deployment()", "policy")
 	if outer == nil {
 		return nil, fmt.Errorf("ipam.go: getAvailableSubnet lost its deployment / policy guard")
 	}
-	gc, err := boolExpr(ip, outer.Cond, map[string]string{"keyObj.Deployment()": "isDp",
+	gc, err := boolExpr(gas, outer.Cond, map[string]string{"keyObj.Deployment()": "isDp",
 		"policy != constant.ReleasePolicyPodDelete": "(policy != releasePolicyPodDelete)",
 		"policy == constant.ReleasePolicyPodDelete": "(policy == releasePolicyPodDelete)"})
 	if err != nil {
 		return nil, fmt.Errorf("ipam.go getAvailableSubnet guard: %v", err)
 	}
-	say("`getAvailableSubnet`: the reserved-IP lookup applies when `"+norm(ip.Src(outer.Cond))+"`",
+	say("`getAvailableSubnet`: the reserved-IP lookup applies when `"+gas.Src(outer.Cond)+"`",
 		"def reserveLookupApplies (isDp : Bool) (policy : Nat) : Bool := "+gc)
-	limit := findIf(ip, outer.Body, "usedCount", "replicas")
+	limit := findIf(gas, outer.Body, "usedCount", "replicas")
 	if limit == nil {
 		return nil, fmt.Errorf("ipam.go: getAvailableSubnet lost the usedCount / replicas test")
 	}
-	cl, err := cmpExpr(ip, limit.Cond, map[string]string{"usedCount": "usedCount", "replicas": "replicas"})
+	cl, err := cmpExpr(gas, limit.Cond, map[string]string{"usedCount": "usedCount", "replicas": "replicas"})
 	if err != nil {
 		return nil, fmt.Errorf("ipam.go getAvailableSubnet: %v", err)
 	}
-	say("`getAvailableSubnet`: no more IPs for the app / pool when `"+norm(ip.Src(limit.Cond))+"`",
+	say("`getAvailableSubnet`: no more IPs for the app / pool when `"+gas.Src(limit.Cond)+"`",
 		"def sizeLimitReached (usedCount replicas : Int) : Bool := "+cl)
 	var loop *ast.RangeStmt
 	for _, s := range outer.Body.List {
-		if r, ok := s.(*ast.RangeStmt); ok && norm(ip.Src(r.X)) == "ips" {
+		if r, ok := s.(*ast.RangeStmt); ok && gas.Src(r.X) == "ips" {
 			loop = r
 		}
 	}
 	if loop == nil {
 		return nil, fmt.Errorf("ipam.go: getAvailableSubnet lost `for _, ip := range ips`")
 	}
-	atoms := map[string]string{"ip.Key != poolPrefix": "(!keyIsPrefix)", "ip.Key == poolPrefix": "keyIsPrefix",
+	atoms := map[string]string{"ip.Key != keyObj.PoolPrefix()": "(!keyIsPrefix)", "ip.Key == keyObj.PoolPrefix()": "keyIsPrefix",
 		"isPoolSizeDefined": "sized", `keyObj.PoolName == ""`: "noPool", `keyObj.PoolName != ""`: "(!noPool)",
-		"strings.HasPrefix(ip.Key, poolAppPrefix)": "hasAppPrefix"}
-	used, ok, err := reach(ip, loop.Body.List, "usedCount++", atoms)
+		"strings.HasPrefix(ip.Key, keyObj.PoolAppPrefix())": "hasAppPrefix"}
+	used, ok, err := reach(gas, loop.Body.List, "usedCount++", atoms, "true")
 	if err != nil || !ok {
 		return nil, fmt.Errorf("ipam.go getAvailableSubnet: cannot translate when `usedCount++` runs: %v", err)
 	}
-	unused, ok, err := reach(ip, loop.Body.List, "unusedSubnetSet.Insert(", atoms)
+	unused, ok, err := reach(gas, loop.Body.List, "unusedSubnetSet.Insert(", atoms, "true")
 	if err != nil || !ok {
 		return nil, fmt.Errorf("ipam.go getAvailableSubnet: cannot translate when the unused subnets are collected: %v", err)
 	}
@@ -705,147 +754,113 @@ func gen(repo string) (map[string]string, error) {
 		"def countsAsUsed (keyIsPrefix sized noPool hasAppPrefix : Bool) : Bool := "+used)
 	say("`getAvailableSubnet`: a record contributes its node subnets to the reserved (unused) set iff …",
 		"def countsAsUnused (keyIsPrefix sized noPool hasAppPrefix : Bool) : Bool := "+unused)
-	oi := func(s ast.Stmt) int {
-		for i, x := range outer.Body.List {
-			if x == s {
-				return i
-			}
-		}
-		return -1
-	}
-	unusedRet := -1
+	od := decisions(gas, outer.Body.List)
+	rangesI := indexOf(od, "len(ipranges) > 0", "error")
+	byPrefixI := indexOf(od, "let", "p.ipam.ByPrefix(keyObj.PoolPrefix())")
+	loopI := indexOf(od, "for", "ips")
+	limitI := indexOf(od, gas.Src(limit.Cond), "error")
+	unusedI := -1
 	for i, s := range outer.Body.List {
-		if is, ok := s.(*ast.IfStmt); ok && strings.Contains(norm(ip.Src(is.Cond)), "unusedSubnetSet.Len() > 0") && blockReturns(ip, is.Body, "return unusedSubnetSet, true, nil") {
-			unusedRet = i
+		if is, ok := s.(*ast.IfStmt); ok && strings.Contains(gas.Src(is.Cond), "unusedSubnetSet.Len() > 0") && blockReturns(gas, is.Body, "return unusedSubnetSet, true, nil") {
+			unusedI = i
 		}
 	}
-	rangesErr := findIf(ip, outer.Body, "len(ipranges) > 0")
-	byPrefixI := -1
+	limitStmtI, outerI := -1, -1
 	for i, s := range outer.Body.List {
-		if strings.Contains(norm(ip.Src(s)), "p.ipam.ByPrefix(poolPrefix)") {
-			byPrefixI = i
-			break
+		if s == ast.Stmt(limit) {
+			limitStmtI = i
 		}
 	}
-	fallback := topIndex(ip, gas.Body, "p.ipam.NodeSubnetsByIPRanges(ipranges)")
-	outerI := -1
-	for i, s := range gas.Body.List {
+	for i, s := range gas.Decl.Body.List {
 		if s == ast.Stmt(outer) {
 			outerI = i
 		}
 	}
-	fact("`getAvailableSubnet`: requested ranges are refused; ByPrefix(poolPrefix); the count loop; the size limit returns an error; THEN the reserved subnets are returned with reserve=true; only otherwise the free subnets (reserve=false)",
-		"availableSubnetShape", rangesErr != nil && blockReturns(ip, rangesErr.Body, "return nil, false, fmt.Errorf") &&
-			before(oi(rangesErr), byPrefixI) && before(byPrefixI, oi(loop)) && before(oi(loop), oi(limit)) && before(oi(limit), unusedRet) &&
-			before(outerI, fallback) && strings.Contains(norm(ip.Src(limit.Body)), "return nil, false, fmt.Errorf") &&
-			strings.Contains(norm(ip.Src(outer.Body)), "poolPrefix := keyObj.PoolPrefix()") &&
-			strings.Contains(norm(ip.Src(outer.Body)), "poolAppPrefix := keyObj.PoolAppPrefix()"))
-	rip, err := ip.Fn("FloatingIPPlugin", "reserveIP")
-	if err != nil {
-		return nil, err
-	}
+	fallback := stmtIdx(gas, gas.Decl.Body.List, "p.ipam.NodeSubnetsByIPRanges(ipranges)")
+	fact("`getAvailableSubnet`: requested ranges are refused; ByPrefix(PoolPrefix()); the count loop; the size limit returns an error; THEN the reserved subnets are returned with reserve=true; only otherwise the free subnets (reserve=false)",
+		"availableSubnetShape", before(rangesI, byPrefixI) && before(byPrefixI, loopI) && before(loopI, limitI) && before(limitStmtI, unusedI) &&
+			before(outerI, fallback))
+	rip := forms["reserveIP"]
 	fact("plugin `reserveIP(key, prefixKey)` calls `ReserveIP(key, prefixKey, floatingip.Attr{})`: node and uid are cleared, the policy field of the argument is NOT what is stored (see reserveCopiesStoredPolicy)",
-		"reserveIPPassesEmptyAttr", strings.Contains(norm(ip.Src(rip.Body)), "p.ipam.ReserveIP(key, prefixKey, floatingip.Attr{})"))
+		"reserveIPPassesEmptyAttr", strings.Contains(rip.Text, "p.ipam.ReserveIP(key, prefixKey, floatingip.Attr{})"))
 
 	// ---------------------------------------------------------------- filter.go
-	fl, err := fg.ParseFile(repo, dir+"filter.go")
-	if err != nil {
-		return nil, err
-	}
-	gsn, err := fl.Fn("FloatingIPPlugin", "getSubnet")
-	if err != nil {
-		return nil, err
-	}
-	dpIf := (*ast.IfStmt)(nil)
+	gsn := forms["getSubnet"]
+	var dpIf *ast.IfStmt
 	dpIfI := -1
-	for i, s := range gsn.Body.List {
-		if is, ok := s.(*ast.IfStmt); ok && norm(fl.Src(is.Cond)) == "keyObj.Deployment()" {
+	for i, s := range gsn.Decl.Body.List {
+		if is, ok := s.(*ast.IfStmt); ok && gsn.Src(is.Cond) == "keyObj.Deployment()" {
 			dpIf, dpIfI = is, i
 		}
 	}
 	lockOK := false
 	if dpIf != nil {
-		li := deferIdx(fl, dpIf.Body.List, "p.LockDpPool(keyObj.PoolPrefix())()")
-		ri := -1
-		for i, s := range dpIf.Body.List {
-			if strings.Contains(norm(fl.Src(s)), "p.getDpReplicas(keyObj)") {
-				ri = i
-			}
-		}
-		lockOK = li >= 0 && ri >= 0
+		dd := decisions(gsn, dpIf.Body.List)
+		lockOK = indexOf(dd, "defer", "p.LockDpPool(keyObj.PoolPrefix())()") >= 0 && indexOf(dd, "let", "p.getDpReplicas(keyObj)") >= 0
 	}
-	availI := topIndex(fl, gsn.Body, "p.getAvailableSubnet(keyObj, policy, replicas, isPoolSizeDefined, ipranges)")
-	allocI := topIndex(fl, gsn.Body, "p.allocateDuringFilter(")
+	availI := stmtIdx(gsn, gsn.Decl.Body.List, "p.getAvailableSubnet(keyObj, policy, replicas, isPoolSizeDefined, ipranges)")
+	allocI := stmtIdx(gsn, gsn.Decl.Body.List, "p.allocateDuringFilter(")
 	fact("`getSubnet`: for deployment pods `defer p.LockDpPool(keyObj.PoolPrefix())()` is taken before getAvailableSubnet (the count) and allocateDuringFilter (the allocation) - both inside the lock scope",
 		"getSubnetCountAndAllocateUnderPoolLock", lockOK && before(dpIfI, availI) && before(availI, allocI))
-	allocIf := findIf(fl, gsn.Body, "reserve || isPoolSizeDefined", "subnetSet.Len() > 0")
+	allocIf := findIf(gsn, gsn.Decl.Body, "reserve || isPoolSizeDefined", "subnetSet.Len() > 0")
 	allocErr := false
 	if allocIf != nil {
-		for _, s := range allocIf.Body.List {
-			if is, ok := s.(*ast.IfStmt); ok && is.Init != nil && strings.Contains(norm(fl.Src(is.Init)), "p.allocateDuringFilter(") &&
-				norm(fl.Src(is.Cond)) == "err != nil" && blockReturns(fl, is.Body, "return nil, err") {
+		for _, d := range decisions(gsn, allocIf.Body.List) {
+			if strings.Contains(d[0], "p.allocateDuringFilter(") && strings.HasSuffix(d[0], "err != nil") && d[1] == "error" {
 				allocErr = true
 			}
 		}
 	}
 	fact("`getSubnet`: allocates during filter iff `(reserve || isPoolSizeDefined) && subnetSet.Len() > 0`, in the first subnet of the sorted list, and returns the error of allocateDuringFilter (no nodes are offered then)",
-		"getSubnetReturnsAllocError", allocIf != nil && allocErr && strings.Contains(norm(fl.Src(allocIf.Body)), "reserveSubnet := subnetSet.List()[0]"))
-	adf, err := fl.Fn("FloatingIPPlugin", "allocateDuringFilter")
-	if err != nil {
-		return nil, err
-	}
-	resIf := (*ast.IfStmt)(nil)
-	for _, s := range adf.Body.List {
-		if is, ok := s.(*ast.IfStmt); ok && norm(fl.Src(is.Cond)) == "reserve" {
-			resIf = is
+		"getSubnetReturnsAllocError", allocIf != nil && allocErr && strings.Contains(gsn.Src(allocIf.Body), "subnetSet.List()[0]"))
+	adf := forms["allocateDuringFilter"]
+	body := adf.Decl.Body.List
+	// the error of the re-keying is returned: `if err := f(); err != nil { return err }` or `return f()`
+	errReturned := false
+	ast.Inspect(adf.Decl.Body, func(n ast.Node) bool {
+		switch x := n.(type) {
+		case *ast.IfStmt:
+			if x.Init != nil && strings.Contains(adf.Src(x.Init), "p.allocateInSubnetWithKey(keyObj.PoolPrefix(), keyObj.KeyInDB, reserveSubnet,") &&
+				adf.Src(x.Cond) == "err != nil" && blockReturns(adf, x.Body, "return err") {
+				errReturned = true
+			}
+		case *ast.ReturnStmt:
+			if strings.HasPrefix(adf.Src(x), "return p.allocateInSubnetWithKey(keyObj.PoolPrefix(), keyObj.KeyInDB, reserveSubnet,") {
+				errReturned = true
+			}
 		}
-	}
-	noFall := false
-	if resIf != nil && len(resIf.Body.List) == 1 {
-		if is, ok := resIf.Body.List[0].(*ast.IfStmt); ok && is.Init != nil &&
-			strings.Contains(norm(fl.Src(is.Init)), "p.allocateInSubnetWithKey(keyObj.PoolPrefix(), keyObj.KeyInDB, reserveSubnet, attr") &&
-			norm(fl.Src(is.Cond)) == "err != nil" && blockReturns(fl, is.Body, "return err") {
-			// allocateInSubnet( must not be reachable on the reserve path: only in the else branch
-			noFall = !strings.Contains(fl.Src(resIf.Body), "p.allocateInSubnet(") && resIf.Else != nil &&
-				strings.Contains(fl.Src(resIf.Else), "p.allocateInSubnet(keyObj.KeyInDB")
-			last := adf.Body.List[len(adf.Body.List)-1]
-			noFall = noFall && norm(fl.Src(last)) == "return nil" && strings.Count(fl.Src(adf.Body), "p.allocateInSubnet(") == 1
-		}
-	}
+		return true
+	})
+	noFall := errReturned &&
+		reachableUnder(adf, body, "p.allocateInSubnetWithKey(", map[string]bool{"reserve": true}) &&
+		!reachableUnder(adf, body, "p.allocateInSubnet(", map[string]bool{"reserve": true}) &&
+		!reachableUnder(adf, body, "p.allocateInSubnetWithKey(", map[string]bool{"reserve": false}) &&
+		strings.Count(adf.Text, "p.allocateInSubnetWithKey(") == 1
 	fact("`allocateDuringFilter`: with reserve=true the only allocation is allocateInSubnetWithKey(PoolPrefix → key); its error is returned; a fresh allocation (allocateInSubnet) is reachable only when reserve=false",
 		"allocateDuringFilterNoFallThrough", noFall)
 	fact("`allocateDuringFilter`: the attributes written are (policy of the pod, node \"\", uid of the pod)",
-		"allocateDuringFilterAttr", strings.Contains(norm(fl.Src(adf.Body)), `attr := floatingip.Attr{Policy: policy, NodeName: "", Uid: uid}`))
+		"allocateDuringFilterAttr", strings.Count(adf.Text, `floatingip.Attr{Policy: policy, NodeName: "", Uid: uid}`) >= 1 &&
+			!strings.Contains(strings.ReplaceAll(adf.Text, `floatingip.Attr{Policy: policy, NodeName: "", Uid: uid}`, ""), "floatingip.Attr{"))
 
 	// ---------------------------------------------------------------- resync.go
-	rs, err := fg.ParseFile(repo, dir+"resync.go")
-	if err != nil {
-		return nil, err
-	}
-	fc, err := rs.Fn("FloatingIPPlugin", "fetchChecklist")
-	if err != nil {
-		return nil, err
-	}
-	noPod := findIf(rs, fc, `keyObj.PodName == ""`)
+	fc := forms["fetchChecklist"]
+	noPod := findIf(fc, fc.Decl.Body, `keyObj.PodName == ""`)
 	fact("`fetchChecklist`: records whose key has no pod name (app / pool prefix keys) are skipped - the root of the known finding dp-prefix-ip-never-reevaluated",
-		"resyncSkipsKeysWithoutPodName", noPod != nil && strings.Contains(norm(rs.Src(noPod.Body)), "continue"))
-	neverSkip := findIf(rs, fc, "fip.PodUid", "fip.NodeName", "ReleasePolicyNever")
+		"resyncSkipsKeysWithoutPodName", noPod != nil && fc.Src(noPod.Cond) == `keyObj.PodName == ""` && strings.Contains(fc.Src(noPod.Body), "continue"))
+	neverSkip := findIf(fc, fc.Decl.Body, "fip.PodUid", "fip.NodeName", "ReleasePolicyNever")
 	if neverSkip == nil {
 		return nil, fmt.Errorf("resync.go: fetchChecklist lost the never-policy skip")
 	}
-	ns, err := boolExpr(rs, neverSkip.Cond, map[string]string{`fip.PodUid == ""`: "uidEmpty", `fip.NodeName == ""`: "nodeEmpty",
+	ns, err := boolExpr(fc, neverSkip.Cond, map[string]string{`fip.PodUid == ""`: "uidEmpty", `fip.NodeName == ""`: "nodeEmpty",
 		"keyObj.Deployment()": "isDp", "constant.ReleasePolicy(fip.Policy) == constant.ReleasePolicyNever": "(policy == releasePolicyNever)"})
 	if err != nil {
 		return nil, fmt.Errorf("resync.go fetchChecklist: %v", err)
 	}
-	say("`fetchChecklist`: a record is skipped (never re-checked) when `"+norm(rs.Src(neverSkip.Cond))+"`",
+	say("`fetchChecklist`: a record is skipped (never re-checked) when `"+fc.Src(neverSkip.Cond)+"`",
 		"def resyncSkipsReserved (uidEmpty nodeEmpty isDp : Bool) (policy : Nat) : Bool := "+ns)
-	rai, err := rs.Fn("FloatingIPPlugin", "resyncAllocatedIPs")
-	if err != nil {
-		return nil, err
-	}
+	rai := forms["resyncAllocatedIPs"]
 	var closure *ast.FuncLit
-	ast.Inspect(rai, func(n ast.Node) bool {
+	ast.Inspect(rai.Decl, func(n ast.Node) bool {
 		if f, ok := n.(*ast.FuncLit); ok && closure == nil {
 			closure = f
 		}
@@ -853,120 +868,94 @@ func gen(repo string) (map[string]string, error) {
 	})
 	resOK := false
 	if closure != nil {
-		rd := topIndex(rs, closure.Body, "p.ipam.ByIP(obj.fip.IP)")
+		cl := closure.Body.List
+		rd := stmtIdx(rai, cl, "p.ipam.ByIP(obj.fip.IP)")
 		as := -1
-		for i, s := range closure.Body.List {
-			if norm(rs.Src(s)) == "obj.fip = fip" {
+		for i, s := range cl {
+			if rai.Src(s) == "obj.fip = fip" {
 				as = i
 			}
 		}
-		pol := topIndex(rs, closure.Body, "releasePolicy := constant.ReleasePolicy(obj.fip.Policy)")
-		cb := norm(rs.Src(closure.Body))
-		resOK = before(rd, as) && before(as, pol) &&
-			strings.Contains(cb, `p.unbindNoneDpPod(obj.keyObj, releasePolicy, "during resync")`) &&
-			strings.Contains(cb, `p.unbindDpPod(obj.keyObj, releasePolicy, "during resync")`) &&
-			strings.Contains(cb, "if !obj.keyObj.Deployment()")
+		u1 := stmtIdx(rai, cl, "p.unbindNoneDpPod(")
+		cb := rai.Src(closure.Body)
+		resOK = before(rd, as) && before(as, u1) &&
+			strings.Contains(cb, `p.unbindNoneDpPod(obj.keyObj, constant.ReleasePolicy(obj.fip.Policy), "during resync")`) &&
+			strings.Contains(cb, `p.unbindDpPod(obj.keyObj, constant.ReleasePolicy(obj.fip.Policy), "during resync")`) &&
+			strings.Contains(cb, "if !obj.keyObj.Deployment()") && strings.Count(cb, "p.unbindDpPod(")+strings.Count(cb, "p.unbindNoneDpPod(") == 2
 	}
 	fact("resync closure: the record is re-read (`ByIP`), stored into `obj.fip`, and the decision functions get `constant.ReleasePolicy(obj.fip.Policy)` - the STORED policy of the re-read record",
 		"resyncUsesRereadRecordAndStoredPolicy", resOK)
 
 	// ---------------------------------------------------------------- bind.go unbind
-	bd, err := fg.ParseFile(repo, dir+"bind.go")
-	if err != nil {
-		return nil, err
-	}
-	unb, err := bd.Fn("FloatingIPPlugin", "unbind")
-	if err != nil {
-		return nil, err
-	}
-	ubs := norm(bd.Src(unb.Body))
+	unb := forms["unbind"]
 	fact("`unbind` (event path): the policy is parsed from the event's pod object; deployment keys go to unbindDpPod, all others to unbindNoneDpPod",
-		"unbindUsesPodPolicy", strings.Contains(ubs, "policy := parseReleasePolicy(&pod.ObjectMeta)") &&
-			strings.Contains(ubs, `if keyObj.Deployment() { return p.unbindDpPod(keyObj, policy, "during unbinding pod") } return p.unbindNoneDpPod(keyObj, policy, "during unbinding pod")`))
+		"unbindUsesPodPolicy", strings.Contains(unb.Text, "policy := parseReleasePolicy(&pod.ObjectMeta)") &&
+			strings.Contains(unb.Text, `if keyObj.Deployment() { return p.unbindDpPod(keyObj, policy, "during unbinding pod") } return p.unbindNoneDpPod(keyObj, policy, "during unbinding pod")`))
 
 	// ---------------------------------------------------------------- floatingip: ReserveIP, Assign, CloneWith
-	ic, err := fg.ParseFile(repo, "pkg/ipam/floatingip/ipam_crd.go")
-	if err != nil {
-		return nil, err
-	}
-	rsv, err := ic.Fn("crdIpam", "ReserveIP")
-	if err != nil {
-		return nil, err
-	}
+	rsv := forms["ReserveIP"]
 	copyOK := false
-	ast.Inspect(rsv, func(n ast.Node) bool {
+	ast.Inspect(rsv.Decl, func(n ast.Node) bool {
 		blk, ok := n.(*ast.BlockStmt)
 		if !ok {
 			return true
 		}
-		cp, up, as := -1, -1, -1
+		cp, cw, up, as := -1, -1, -1, -1
+		otherPolicyWrite := false
 		for i, s := range blk.List {
-			t := norm(ic.Src(s))
+			t := rsv.Src(s)
 			switch {
 			case t == "attr.Policy = constant.ReleasePolicy(v.Policy)":
 				cp = i
-			case strings.HasPrefix(t, "if err := ci.updateFloatingIP(v.CloneWith(newK, &attr, date)); err != nil") && strings.Contains(t, "return false, err"):
+			case strings.Contains(t, "ci.updateFloatingIP(") && strings.Contains(t, "return false, err"):
 				up = i
+				if strings.Contains(t, "v.CloneWith(newK, &attr, date)") {
+					cw = i
+				}
+			case strings.Contains(t, "v.CloneWith(newK, &attr, date)"):
+				cw = i
 			case t == "v.Assign(newK, &attr, date)":
 				as = i
+			case strings.Contains(t, "Policy =") || strings.Contains(t, "attr ="):
+				otherPolicyWrite = true
 			}
 		}
-		if before(cp, up) && before(up, as) {
+		if before(cp, cw) && cw <= up && before(up, as) && !otherPolicyWrite {
 			copyOK = true
 		}
 		return true
 	})
-	fact("`ReserveIP`: `attr.Policy = constant.ReleasePolicy(v.Policy)` precedes BOTH the persisted clone `updateFloatingIP(v.CloneWith(newK, &attr, date))` (error returned) and the cached record `v.Assign(newK, &attr, date)`",
+	fact("`ReserveIP`: `attr.Policy = constant.ReleasePolicy(v.Policy)` precedes BOTH the persisted clone `updateFloatingIP(v.CloneWith(newK, &attr, date))` (error returned) and the cached record `v.Assign(newK, &attr, date)`; nothing else writes a policy in between",
 		"reserveCopiesStoredPolicy", copyOK)
-	rsvS := norm(ic.Src(rsv.Body))
 	fact("`ReserveIP`: runs under cacheLock; touches exactly the records with `v.Key == oldK`; skips when nothing would change (`oldK == newK && v.PodUid == attr.Uid && v.NodeName == attr.NodeName`)",
-		"reserveShape", strings.Contains(rsvS, "ci.cacheLock.Lock() defer ci.cacheLock.Unlock()") && strings.Contains(rsvS, "if v.Key == oldK {") &&
-			strings.Contains(rsvS, "if oldK == newK && v.PodUid == attr.Uid && v.NodeName == attr.NodeName { continue }"))
-	ff, err := fg.ParseFile(repo, "pkg/ipam/floatingip/floatingip.go")
-	if err != nil {
-		return nil, err
-	}
-	asg, err := ff.Fn("FloatingIP", "Assign")
-	if err != nil {
-		return nil, err
-	}
-	cw, err := ff.Fn("FloatingIP", "CloneWith")
-	if err != nil {
-		return nil, err
-	}
+		"reserveShape", strings.HasPrefix(rsv.Text, "{ ci.cacheLock.Lock() defer ci.cacheLock.Unlock()") && strings.Contains(rsv.Text, "if v.Key == oldK {") &&
+			strings.Contains(rsv.Text, "if oldK == newK && v.PodUid == attr.Uid && v.NodeName == attr.NodeName { continue }"))
+	asg, cw := forms["Assign"], forms["CloneWith"]
 	fact("`FloatingIP.Assign` writes key, `Policy = uint16(attr.Policy)`, node, uid, time; `CloneWith` builds the clone through Assign",
-		"assignWritesPolicyFromAttr", strings.Contains(norm(ff.Src(asg.Body)), "f.Key = key f.Policy = uint16(attr.Policy)") &&
-			strings.Contains(norm(ff.Src(asg.Body)), "f.NodeName = attr.NodeName f.PodUid = attr.Uid") &&
-			strings.Contains(norm(ff.Src(cw.Body)), "return fip.Assign(key, attr, updateAt)"))
-	awk, err := ic.Fn("crdIpam", "AllocateInSubnetWithKey")
-	if err != nil {
-		return nil, err
-	}
-	aw := norm(ic.Src(awk.Body))
-	latest := findIf(ic, awk, "v.UpdatedAt.UnixNano()", "recordTs")
+		"assignWritesPolicyFromAttr", strings.Contains(asg.Text, "f.Key = key") && strings.Contains(asg.Text, "f.Policy = uint16(attr.Policy)") &&
+			strings.Contains(asg.Text, "f.NodeName = attr.NodeName") && strings.Contains(asg.Text, "f.PodUid = attr.Uid") &&
+			strings.Contains(cw.Text, ".Assign(key, attr, updateAt)"))
+	awk := forms["AllocateInSubnetWithKey"]
+	latest := findIf(awk, awk.Decl.Body, "v.UpdatedAt.UnixNano()", "recordTs")
 	latestCmp := ""
 	if latest != nil {
-		latestCmp = norm(ic.Src(latest.Cond))
+		latestCmp = awk.Src(latest.Cond)
 	}
-	fact("`AllocateInSubnetWithKey`: among the records with `v.Key == oldK` routable from the subnet the one with the greatest UpdatedAt is re-keyed (strict `>` from 0); store update first, error returned, then the cache",
-		"allocateWithKeyTakesLatest", strings.Contains(aw, "if v.Key == oldK && v.pool.nodeSubnets.Has(subnet)") &&
-			latestCmp == "v.UpdatedAt.UnixNano() > recordTs" && strings.Contains(aw, "latest = v recordTs = v.UpdatedAt.UnixNano()") &&
-			strings.Contains(aw, "cloned := latest.CloneWith(newK, &attr, date) if err := ci.updateFloatingIP(cloned); err != nil") &&
-			strings.Contains(aw, "return err } latest.Assign(newK, &attr, date) return nil"))
+	fact("`AllocateInSubnetWithKey`: under cacheLock; among the records with `v.Key == oldK` routable from the subnet the one with the greatest UpdatedAt is re-keyed (strict `>` from 0); store update first, error returned, then the cache",
+		"allocateWithKeyTakesLatest", strings.HasPrefix(awk.Text, "{ ci.cacheLock.Lock() defer ci.cacheLock.Unlock()") &&
+			strings.Contains(awk.Text, "if v.Key == oldK && v.pool.nodeSubnets.Has(subnet)") &&
+			latestCmp == "v.UpdatedAt.UnixNano() > recordTs" && strings.Contains(awk.Text, "latest = v recordTs = v.UpdatedAt.UnixNano()") &&
+			strings.Contains(awk.Text, "cloned := latest.CloneWith(newK, &attr, date) if err := ci.updateFloatingIP(cloned); err != nil { return err } latest.Assign(newK, &attr, date) return nil"))
 
 	// ---------------------------------------------------------------- bind.go allocateIP (C02)
-	alc, err := bd.Fn("FloatingIPPlugin", "allocateIP")
-	if err != nil {
-		return nil, err
-	}
-	al := norm(bd.Src(alc.Body))
+	alc := forms["allocateIP"]
 	fact("`allocateIP`: looks up `ByKeyAndIPRanges(key, ipranges)` first; without requested ranges only `ipInfos[:1]` is reused; a new allocation happens only for unallocated ranges or when the key owns nothing; the annotation lists the ipInfos in order",
-		"allocateIPReusesOwned", strings.Contains(al, "ipInfos, err := p.ipam.ByKeyAndIPRanges(key, ipranges)") &&
-			strings.Contains(al, "if len(ipranges) == 0 && len(ipInfos) > 0 { ipInfos = ipInfos[:1] }") &&
-			strings.Contains(al, "cniArgs.Common.IPInfos = ret"))
+		"allocateIPReusesOwned", strings.Contains(alc.Text, "ipInfos, err := p.ipam.ByKeyAndIPRanges(key, cniArgs.RequestIPRange)") &&
+			strings.Contains(alc.Text, "if len(cniArgs.RequestIPRange) == 0 && len(ipInfos) > 0 { ipInfos = ipInfos[:1] }") &&
+			strings.Contains(alc.Text, "cniArgs.Common.IPInfos = ret"))
 	fact("`allocateIP`: `AllocateInSubnetsAndIPRange` is guarded by `len(unallocatedIPRange) > 0 || len(ipInfos) == 0`",
-		"allocateIPAllocatesOnlyMissing", strings.Contains(al, "if len(unallocatedIPRange) > 0 || len(ipInfos) == 0 {") &&
-			strings.Count(al, "p.ipam.AllocateInSubnetsAndIPRange(") == 1)
+		"allocateIPAllocatesOnlyMissing", strings.Contains(alc.Text, "if len(unallocatedIPRange) > 0 || len(ipInfos) == 0 {") &&
+			strings.Count(alc.Text, "p.ipam.AllocateInSubnetsAndIPRange(") == 1)
 
 	b.WriteString("end Galaxy.Generated.C03\n")
 	return map[string]string{"C03.lean": b.String()}, nil
